@@ -33,26 +33,58 @@ def bitsOut (x : Float) : String :=
   let n := x.toBits.toNat
   String.ofList ((List.range 16).map fun i => hexDigit ((n / 16 ^ (15 - i)) % 16))
 
+def splitCommasFwd (s : Str) : List Str :=
+  let rec go : List Nat → List Nat → List Str → List Str
+    | [], cur, acc => (cur.reverse :: acc).reverse
+    | b :: rest, cur, acc => if b = 44 then go rest [] (cur.reverse :: acc) else go rest (b :: cur) acc
+  go s [] []
+
 def splitTag (w : String) : String × String :=
   match w.splitOn ":" with
   | a :: b :: _ => (a, b)
   | _ => (w, "")
 
 def parseTok (w : String) : Option Tok :=
-  if w = "(" then some .lpar else if w = ")" then some .rpar else if w = "o" then some .other else
+  if w = "(" then some .lpar else if w = ")" then some .rpar else if w = "o" then some .other
+  else if w = "fe" then some .fstop else if w = "as" then some .argsep else
   let (t, h) := splitTag w
   match hexBytes h with
   | none => none
   | some b =>
     if t = "n" then some (.num b) else if t = "x" then some (.text b) else if t = "l" then some (.logical b)
     else if t = "r" then some (.ref b) else if t = "i" then some (.infixOp b) else if t = "p" then some (.prefixOp b)
-    else if t = "q" then some (.postfixOp b) else none
+    else if t = "q" then some (.postfixOp b)
+    else if t = "fs" then some (.fstart b)
+    else if t = "g" then some (.rangeArg (if b = [] then [] else splitCommasFwd b) false)
+    else none
 
 def opOf (s : String) : Option Op :=
   match s with
   | "pow" => some .pow | "mul" => some .mul | "div" => some .div | "add" => some .add | "sub" => some .sub
   | "cat" => some .concat | "eq" => some .eq | "ne" => some .ne | "lt" => some .lt | "le" => some .le
   | "gt" => some .gt | "ge" => some .ge | _ => none
+
+def natOfBytes (s : Str) : Nat := s.foldl (fun a b => a * 10 + (b - 48)) 0
+
+def chunk : List Nat → List Str → List (List Str)
+  | [], _ => []
+  | n :: ns, ks => ks.take n :: chunk ns (ks.drop n)
+
+/-- `G:<FN>:<spelling hex>:<keys hex>[:<argument sizes hex>]` → a call leaf -/
+def parseG (w : String) : Option Expr :=
+  match w.splitOn ":" with
+  | _ :: fn :: _ :: keys :: more =>
+    match hexBytes keys with
+    | none => none
+    | some kb =>
+      let ks := if kb = [] then [] else splitCommasFwd kb
+      let sizes : List Nat := match more with
+        | sz :: _ => (match hexBytes sz with
+          | some b => (splitCommasFwd b).map natOfBytes
+          | none => [ks.length])
+        | [] => [ks.length]
+      some (.call (fn.toUTF8.toList.map (·.toNat)) (chunk sizes ks))
+  | _ => none
 
 /-- prefix-notation tree parser with fuel -/
 def parseTree : Nat → List String → Option (Expr × List String)
@@ -64,7 +96,8 @@ def parseTree : Nat → List String → Option (Expr × List String)
     else if w = "par" then (parseTree fuel rest).map fun (e, r) => (.paren e, r)
     else
       let (t, h) := splitTag w
-      if t = "b" then
+      if t = "G" then (parseG w).map fun e => (e, rest)
+      else if t = "b" then
         match opOf h with
         | none => none
         | some op =>
@@ -99,6 +132,7 @@ def showErr : Impl.MErr → String
   | .msg (.parseFloat _) => "err parse"
   | .invalidFormula => "err invalid"
   | .panic => "PANIC"
+  | .unmodelled => "unmodelled"
 
 def showRes : Except Impl.MErr (Impl.Arg Float) → String
   | .ok a => showArg a
@@ -138,7 +172,12 @@ shadowing rule; an invisible name keeps its text (unknown key → #NAME?). -/
 def resolveWord (st : St) (w : String) : String :=
   match w.splitOn ":" with
   | [t, n, c] =>
-    if t = "d" ∨ t = "D" then
+    if t = "dg" then
+      -- a defined range name as a call argument: the model resolves it (Impl scan)
+      match hexBytes n, hexBytes c with
+      | some name, some cur => "g:" ++ hexOut (Impl.definedNameRefTo st.defs name cur)
+      | _, _ => w
+    else if t = "d" ∨ t = "D" then
       match hexBytes n, hexBytes c with
       | some name, some cur =>
         let key : Str :=
@@ -178,11 +217,20 @@ def evalLine (st : St) (w : List String) : Option (String × Except Impl.MErr (I
   match splitBar (w.map (resolveWord st)) with
   | toks :: tree :: more =>
     match toks.mapM parseTok, parseTree 4000 tree with
-    | some ts, some (e, []) =>
-      let r := Impl.evalTokens st.lookI ts
+    | some ts0, some (e, []) =>
+      -- lookahead of the in-function branch: is the next token an argument separator / function token?
+      let rec look : List Tok → List Tok
+        | .rangeArg c _ :: nxt :: rest =>
+          let la := match nxt with
+            | .argsep => true | .fstop => true | .fstart _ => true | _ => false
+          .rangeArg c la :: look (nxt :: rest)
+        | t :: rest => t :: look rest
+        | [] => []
+      let ts := look ts0
+      let r := Impl.evalTokensF st.lookI ts
       let rt := Impl.evalTree st.lookI e
       let sp := Spec.top (Spec.eval st.lookS e)
-      let rendered := decide (render 1 e = ts)
+      let rendered := decide (Impl.flatten (render 1 e) = ts)
       -- optional tolerance echo for inexact math.Pow exponents
       let rs := match more, r with
         | [["tol", b]], .ok (.num x false) =>
